@@ -45,7 +45,7 @@ DELIVER into {out}/ :
  - patch.diff : output of `git -C {d} diff` (only files under aas_core_codegen/).
  - demo.py : a self-contained program run as `cd <some checkout of the project> && /venv/bin/python demo.py`. It must insert the current working directory at the front of sys.path (so it tests the checkout it is run from), print `Using aas_core_codegen from: <path of the imported package>`, exit 0 when the property holds in its scenario and exit 1 (printing what went wrong) when the property is violated. It must exit 0 on the unchanged checkout and 1 with your patch applied; no network; it cleans up its temporary files; it finishes within 2 minutes.
  - notes.md : 5-10 lines: what you changed, why the existing tests do not notice, what exactly is needed for the breakage to manifest.
-Check both directions yourself (`git stash` / `git stash pop`). Leave the worktree with your change applied. Your final answer must be at most 3 lines (what you changed + whether the suite passed).
+Check both directions yourself with `git diff > /tmp/<your-own-name>.diff; git apply -R /tmp/<your-own-name>.diff; ...; git apply /tmp/<your-own-name>.diff` (do NOT use `git stash`: the stash is shared between all worktrees of the repository and other people work in sibling worktrees). Leave the worktree with your change applied. Your final answer must be at most 3 lines (what you changed + whether the suite passed).
 """
 (out / "PROMPT.txt").write_text(text)
 print(text)
